@@ -156,6 +156,17 @@ CHECKS["C10"] = dict(
          "deadlines are accepted in either order.",
     note="Single-threaded (the RLock is not contended). on_timeout callbacks that raise and nested passthroughs are not generated.")
 
+CHECKS["C11"] = dict(
+    category="exploration", design_ref="DESIGN.md 2/C11",
+    technique="schedule enumeration: unload injected after every delivery of scripted protocol runs on a simulated network + virtual clock; stateful PBT of TaskManager",
+    text="For 8 scripted runs (plain Community, the same on a TunnelEndpoint, Discovery, DHTDiscovery, Tunnel, Pex, Identity, "
+         "Attestation; production defaults) unload() is requested after delivery k (quick ~60 k per run, thorough every k) "
+         "and at drawn virtual times; after it returns, late datagrams of every message id are delivered and two hours of "
+         "virtual time pass while sends, handler entries, pending tasks, outside sockets and listener registration are "
+         "observed through shims. Hypothesis op lists exercise register / replace / cancel / shutdown of TaskManager.",
+    note="One recorded finding (second replace_task during the clean-up of the first) is listed in known_findings.json. "
+         "Bootstrappers and the hidden-service overlay are not exercised.")
+
 PENDING = {}
 
 def main():
